@@ -115,6 +115,7 @@ func runC11(w *World, tr *Trace) {
 		nb := 4 + r.Intn(17)
 		advs := []int64{0, 0, 1, 1000, int64(time.Second)}
 		var times []int64
+		var made []Op
 		now := time.Date(2000, 1, 1, 0, 0, 0, 0, time.UTC).UnixNano()
 		for i := 0; i < nb; i++ {
 			switch x := r.Intn(10); {
@@ -123,10 +124,18 @@ func runC11(w *World, tr *Trace) {
 				if r.Intn(5) == 0 {
 					inv = pick(r, rels)
 				}
-				ops = append(ops, Op{K: "link", Idx: ix, ID: pick(r, nodes), ID2: pick(r, nodes), Rel: pick(r, rels), Inv: inv, W: []float32{0, 1}[r.Intn(2)]})
+				l := Op{K: "link", Idx: ix, ID: pick(r, nodes), ID2: pick(r, nodes), Rel: pick(r, rels), Inv: inv, W: []float32{0, 1}[r.Intn(2)]}
+				ops = append(ops, l)
+				made = append(made, l)
 				times = append(times, now)
 			case x < 8:
-				ops = append(ops, Op{K: "unlink", Idx: ix, ID: pick(r, nodes), ID2: pick(r, nodes), Rel: pick(r, rels), Hard: r.Intn(4) == 0})
+				u := Op{K: "unlink", Idx: ix, ID: pick(r, nodes), ID2: pick(r, nodes), Rel: pick(r, rels), Hard: r.Intn(4) == 0}
+				if len(made) > 0 && r.Intn(3) != 0 {
+					// an edge that exists, removed together with the inverse it was created with
+					l := pick(r, made)
+					u.ID, u.ID2, u.Rel, u.Inv = l.ID, l.ID2, l.Rel, l.Inv
+				}
+				ops = append(ops, u)
 				times = append(times, now)
 			default:
 				d := pick(r, advs)
@@ -134,8 +143,8 @@ func runC11(w *World, tr *Trace) {
 				now += d
 			}
 		}
-		if r.Intn(3) == 0 {
-			ops = append(ops, Op{K: pick(r, []string{"restart", "snapshot", "rewrite"})})
+		if r.Intn(2) == 0 {
+			ops = append(ops, Op{K: pick(r, []string{"restart", "restart", "snapshot", "rewrite"})})
 		}
 		// query phase
 		pickT := func() int64 {
